@@ -194,12 +194,12 @@ func runC12(c *eng.Ctx, tier string) {
 		}
 		st := a.In.(*ssa.Store)
 		ok := false
-		for _, cond := range eng.FactsAt(a.In) {
-			if v, isNil, isN := cond.NilCheck(); isN && !isNil && eng.Same(v, st.Val) {
+		for _, cond := range eng.FactsX(a.In) {
+			if v, isNil, isN := cond.NilCheck(); isN && !isNil && eng.SameX(v, st.Val) {
 				ok = true
 			}
 		}
-		c.Check(ok, "R-C12-4", a.Fn, a.In.Pos(), eng.InstrStr(a.In), "a replacement value is known non-nil on this path (handles dereference it unchecked)", "holding here: "+eng.FactsString(a.In))
+		c.Check(ok, "R-C12-4", a.Fn, a.In.Pos(), eng.InstrStr(a.In), "a replacement value is known non-nil on this path (handles dereference it unchecked)", "holding here: "+factsStr(eng.FactsX(a.In)))
 	}
 
 	// R-C12-5 no panic in the read path
